@@ -64,4 +64,26 @@ CHECKS["C01"] = {
                   "as faithful reports of evaluation order.",
 }
 
+CHECKS["C06"] = {
+    "title": "Behaviour depends on the dataflow, not on wiring order or node sharing",
+    "level": "exploration",
+    "technique": "exhaustive bounded enumeration of programs with duplicated / near-duplicated statements x every insertion order x tick "
+                 "histories on the real engine; differential across orders + reference interpreter + node-count lower bound",
+    "design_ref": "DESIGN.md 2/C06",
+    "parts": [{"name": "twins", "exe": "c01_order", "sources": ["c01_order.cpp"], "sub": "c06", "shards": 16}],
+    "rule": "every base DAG program of <= N statements (vocabulary of C01 without inlining) with one statement duplicated in each of four "
+            "ways — exact twin (same definition, inputs, scalars: may be shared), scalar variant, input variant, passive() marker on one "
+            "input (each must stay a distinct node) — plus a combiner reading both and a sink on every port (twin sinks have equal keys and "
+            "must stay distinct); x EVERY insertion order via delayed_binding; x every tick pattern (T=2) of every source. Oracle: every order "
+            "gives the same observation signature (differential) equal to the reference interpreter; nodes().size() >= structurally distinct "
+            "value nodes + sinks; typed twins (replay<TS<Int>>(k) vs replay<TS<Bool>>(k)) stay distinct. non-trivial = distinct (program, history).",
+    "bounds": {"quick": "base programs <= 3 statements (+ twin + combiner = 5), all 5! orders, T=2",
+               "thorough": "base programs <= 4 statements (+ twin + combiner = 6), all 6! orders, T=2"},
+    "min_counters": {"quick": {"nontrivial": 1000, "twins.exact_twin_graphs_shared": 100, "twins.typed_twin_cases": 1}},
+    "assumptions": COMMON_ASSUMPTIONS + ["Sharing of exact twins is allowed but not required; value-node records of twins are compared as sets, sink records as multisets."],
+    "level_text": "Complete enumeration of the bounded twin-program x order x history space; order independence is decided differentially "
+                  "between all orders of the same program and against an independent reference.",
+    "level_note": "Trusted: reference interpreter (harness/gx.h), structural-class computation in harness/c01_order.cpp (what may legitimately be merged).",
+}
+
 NOT_APPLICABLE = {}
